@@ -724,7 +724,10 @@ func fillHashHelper(r interface{}, depth int, env *Zlisp, preferSym bool) (Sexp,
 		}
 		if reflect.ValueOf(st).Type() == reflect.ValueOf(r).Type() {
 			//Q("we have a registered struct match for st=%T and r=%T", st, r)
-			retHash, err := MakeHash([]Sexp{}, hashName, env)
+			// the registry lists a type under its registered name and
+			// under its Go name; which of the two this loop meets first
+			// is up to Go's map order, so name the record consistently.
+			retHash, err := MakeHash([]Sexp{}, factory.RegisteredName, env)
 			if err != nil {
 				return SexpNull, fmt.Errorf("MakeHash '%s' problem: %s",
 					hashName, err)
